@@ -142,8 +142,16 @@ fn main() {
           return "skip".to_string();
         }
         let m = mods[i];
-        match catch_unwind(AssertUnwindSafe(|| m.pretty_print(&heap))) {
-          Ok(s) => format!("s:{}", hex(s.as_bytes())),
+        match catch_unwind(AssertUnwindSafe(|| {
+          (m.pretty_print(&heap), m.to_filename(&heap), m.encoded(&heap), m.is_std(&heap))
+        })) {
+          Ok((s, f, e, std)) => format!(
+            "s:{} f:{} e:{} std:{}",
+            hex(s.as_bytes()),
+            hex(f.as_bytes()),
+            hex(e.as_bytes()),
+            std as u8
+          ),
           Err(_) => "panic".to_string(),
         }
       }
@@ -181,6 +189,32 @@ fn main() {
         // hash equality must follow handle equality; report a flag only when inconsistent
         let hflag = if eq && !heq { " HASH-MISMATCH" } else { "" };
         format!("eq:{} ord:{}{}", eq as u8, ord, hflag)
+      }
+      "consts" => {
+        // every `pub const X: PStr` of samlang-heap (table generated from the source by
+        // extract/c17_consts.py): reads back its literal, equals the handle `alloc_string`
+        // returns for the same text, hashes and orders like it
+        use std::hash::{Hash, Hasher};
+        let hash = |p: PStr| {
+          let mut h = std::collections::hash_map::DefaultHasher::new();
+          p.hash(&mut h);
+          h.finish()
+        };
+        let mut bad = Vec::new();
+        for (name, p, text) in samverif_harness::gen_pstr_consts::TABLE {
+          let ok = catch_unwind(AssertUnwindSafe(|| {
+            let q = heap.alloc_string(text.to_string());
+            p.as_str(&heap) == *text
+              && *p == q
+              && hash(*p) == hash(q)
+              && p.cmp(&q) == std::cmp::Ordering::Equal
+          }))
+          .unwrap_or(false);
+          if !ok {
+            bad.push(*name);
+          }
+        }
+        format!("consts n={} bad={}", samverif_harness::gen_pstr_consts::TABLE.len(), bad.join(","))
       }
       other => format!("bad-op {other}"),
     }
